@@ -270,7 +270,14 @@ func (runtime *Runtime) watch(resourceNamespace resource.Namespace, resourceType
 
 	kind := resource.NewMetadata(resourceNamespace, resourceType, "", resource.Version{})
 
-	return runtime.state.WatchKindAggregated(runtime.runCtx, kind, runtime.watchCh, state.WithBootstrapBookmark(true))
+	if err := runtime.state.WatchKindAggregated(runtime.runCtx, kind, runtime.watchCh, state.WithBootstrapBookmark(true)); err != nil {
+		// the watch was not established: a later attempt for the same kind has to try again
+		delete(runtime.watched, key)
+
+		return err
+	}
+
+	return nil
 }
 
 type dedup map[reduced.Key]reduced.Value
